@@ -81,6 +81,8 @@ func rootLocal(f *eng.Fn, e ast.Expr) *types.Var {
 
 func runC01(p *eng.Prog, r *eng.Report, tier string) {
 	c := &cx{p, r, tier}
+	callerSlicesNotRewritten(c, "C01.16", negSet(c, "C01.16"))
+	c01CachedMandatoryFlag(c, "C01.17")
 	nf, call := negotiateSite(c, "C01.1")
 	firstParam := ""
 	if nf != nil {
@@ -951,4 +953,51 @@ func c01Negotiator(c *cx) {
 		return true
 	})
 	c.r.Check("C01.13", f, "default negotiatorState", "K: when no state was passed in (first call) doRestart defaults to true", f.Pos(), okDefault, "no negotiatorState{doRestart: true} literal under the !ok edge of the state assertion")
+}
+
+// c01CachedMandatoryFlag (C01.17): an entry of the advertised-features cache
+// records whether THAT feature is mandatory: the `req` field of every sfData
+// literal stored in a streamFeaturesList is the first result of the feature's
+// own Parse (initiator) or List (receiver) call of the same iteration, or the
+// constant true of the forced STARTTLS attempt. The list-wide flag ("some
+// mandatory feature was seen") in its place makes every voluntary feature that
+// is advertised after a mandatory one mandatory as well, and the selection
+// order then depends on the order of the advertisement and of the map.
+func c01CachedMandatoryFlag(c *cx, id string) {
+	n := 0
+	for _, name := range []string{"readStreamFeatures", "writeStreamFeatures", "negotiateFeatures"} {
+		f := c.fn(id, "", name)
+		if f == nil {
+			continue
+		}
+		g := f.Graph()
+		for _, cl := range f.WalkLits("xmpp.sfData") {
+			req := structLitField(cl, "req")
+			feat := structLitField(cl, "feature")
+			if req == nil || feat == nil {
+				if len(cl.Elts) == 0 {
+					continue // zero value
+				}
+				c.r.Check(id, f, "sfData literal", "K: the cache entry names its feature and its mandatory flag", cl.Pos(), false, "req or feature missing")
+				continue
+			}
+			n++
+			pt, _ := g.Where(cl)
+			rn := f.Norm(req, &pt)
+			fn := f.Norm(feat, &pt)
+			ok := rn == "true" ||
+				eng.Glob("field:xmpp.StreamFeature.Parse[*](*)#0", rn) || eng.Glob("field:xmpp.StreamFeature.List[*](*)#0", rn) ||
+				eng.Glob("field:xmpp.StreamFeature.Parse(*)#0", rn) || eng.Glob("field:xmpp.StreamFeature.List(*)#0", rn)
+			why := "the flag is " + rn
+			if ok && rn != "true" {
+				// the call is made on the feature that is cached
+				if !strings.Contains(rn, fn) {
+					ok = false
+					why = "the flag comes from a call on another feature value than the one cached (" + fn + "): " + rn
+				}
+			}
+			c.r.Check(id, f, "mandatory flag of the cached feature", "K: sfData.req is the first result of the cached feature's own Parse/List call (or the constant true of the forced STARTTLS attempt), not list-wide state", cl.Pos(), ok, why)
+		}
+	}
+	c.r.Floor(id, "sfData literals", n, 3)
 }
